@@ -143,7 +143,10 @@ func (evm *EVM) Call(caller ContractRef, addr common.Address, input []byte, gas 
 	if len(code) == 0 && PrecompiledContracts[addr] == nil && value.Sign() == 0 {
 		return nil, gas, nil
 	}
-	evm.Transfer(evm.am, caller.GetAddress(), to.GetAddress(), value)
+	// The value is always zero in a read-only call, there is nothing to transfer. But Transfer would push two balance logs
+	if !evm.interpreter.readOnly {
+		evm.Transfer(evm.am, caller.GetAddress(), to.GetAddress(), value)
+	}
 	// Initialise a new contract and set the code that is to be used by the EVM.
 	// The contract is a scoped environment for this execution context only.
 	contract := NewContract(caller, to, value, gas)
@@ -170,7 +173,10 @@ func (evm *EVM) Call(caller ContractRef, addr common.Address, input []byte, gas 
 		if err != errExecutionReverted {
 			contract.UseGas(contract.Gas)
 		}
-		evm.AddEvent(addr, []common.Hash{types.TopicRunFail}, []byte{})
+		// A read-only call changes nothing. So the failure of a call inside it is not recorded, the same as for StaticCall itself
+		if !evm.interpreter.readOnly {
+			evm.AddEvent(addr, []common.Hash{types.TopicRunFail}, []byte{})
+		}
 	}
 	return ret, contract.Gas, err
 }
